@@ -162,7 +162,11 @@ func TimerSend[T any](c chan T, v T) {
 // TimerClose closes c from a timer callback (idempotent).
 func TimerClose[T any](c chan T) {
 	cs := stateOf(chanKey(c), c, cap(c))
-	cs.h = mix(cs.h, fireH)
+	if S.cur != nil {
+		Touch(&cs.h, 3)
+	} else {
+		cs.h = mix(cs.h, fireH)
+	}
 	cs.closed = true
 }
 
